@@ -190,9 +190,10 @@ def gadd(guard, atom, pol):
 
 
 class Evaluator:
-    def __init__(self, U, inline=(), max_depth=6, keep_tags=True):
+    def __init__(self, U, inline=(), max_depth=6, keep_tags=True, stop=()):
         self.U = U
         self.inline = set(inline)
+        self.stop = set(stop)   # with inline={"*"}: default methods kept symbolic
         self.max_depth = max_depth
         self.keep_tags = keep_tags
         self.calls_seen = []   # resolved callee descriptions (who-calls)
@@ -272,6 +273,8 @@ class Evaluator:
                     raise Unsupported("nested refutable pattern", body["span"])
             return self.isvar(term, pat["path"], v)
         if k == "const":
+            if pat["ty"]["s"] == "bool" and "bits" in pat:
+                return term if int(pat["bits"]) == 1 else ("not", term)
             if "str" in pat:
                 c = ("str", pat["str"])
             elif "bits" in pat:
@@ -462,6 +465,11 @@ class Evaluator:
         yield from self.ev(e["e"], st, depth, body)
 
     def ev_lit(self, e, st, depth, body):
+        if e["lit"]["t"] == "bool" and (e.get("expn") or "").startswith("Macro(Bang") and (e.get("expn") or "").rstrip('")').endswith("cfg"):
+            # `cfg!(..)` (e.g. inside debug_assert!): the value depends on the
+            # build profile, so it is an opaque condition, not a constant
+            yield (st.guard, "val", ("app", "cfg!", None, (("str", e.get("sp") or ""),)), st.env)
+            return
         if e["lit"]["t"] == "other":
             yield (st.guard, "val", ("opaque_lit", e["lit"]["v"]), st.env)
             return
@@ -756,7 +764,7 @@ class Evaluator:
         r = f.get("resolved")
         if tr in QT:
             short = QT[tr] + "::" + name
-            if f.get("has_default") and (short in self.inline or "*" in self.inline):
+            if f.get("has_default") and (short in self.inline or ("*" in self.inline and short not in self.stop)):
                 if r is not None and r["path"] != path:
                     target = r["path"]       # an overriding impl: analyse the override
                 else:
